@@ -1,7 +1,7 @@
 """Property -> machinery."""
 PROPS = {
     "C08": {
-        "x": ["harness.hC08"],
+        "x": ["harness.hC08", "harness.hC01"],
         "extra": ["harness.pC08.run"],
         "level": "other",
         "explanation": "Engine X: the real ExplorerScriptMacro.build/_build_op with SourceMapBuilder on blueprints compiled "
